@@ -234,7 +234,10 @@ pub fn c12(t: &Trace, r: &mut Report) {
             if let Some(p) = &prev {
                 if p.acc < (1 << 24) {
                     r.eval();
-                    let stepc = ((o.acc + (1 << 24) - p.acc) % (1 << 24)) as f64; // phase step on the circle
+                    // the phase step of this tick is the configured one (frequency / sample rate, i.e. the increment in
+                    // effect, C11), measured on the circle; on a tree where the counter itself jumps the outputs jump
+                    // with it and that is a discontinuity of the waveform
+                    let stepc = (p.inc % (1 << 24)) as f64;
                     let step = stepc.min(P24 - stepc) / P24;
                     let wrapped = o.acc < p.acc;
                     r.nt(h2(p.acc >> 12, h2(wrapped as u64, (stepc.max(1.0).log2()) as u64)));
